@@ -432,6 +432,26 @@ pub(crate) struct NISPSignaturePoK {
 }
 
 impl NISPSignaturePoK {
+    /// The signer key, the attribute bases and the commitment key the proof is made for. Part of the Fiat-Shamir challenge:
+    /// a proof is valid under exactly these, not under keys or bases that differ in sign or in a position it does not use.
+    fn statement(
+        commitment_pk: &CL03CommitmentPublicKey,
+        signer_pk: &CL03PublicKey,
+        a_bases: &Bases,
+        n_attr: usize,
+    ) -> String {
+        let mut st = signer_pk.N.to_string() + &signer_pk.b.to_string() + &signer_pk.c.to_string();
+        for a in a_bases.0.iter().take(n_attr) {
+            st += &a.to_string();
+        }
+        st += &commitment_pk.N.to_string();
+        st += &commitment_pk.h.to_string();
+        for g in commitment_pk.g_bases.iter().take(n_attr) {
+            st += &g.to_string();
+        }
+        st
+    }
+
     pub(crate) fn nisp5_MultiAttr_generate_proof<CS: CLCiphersuite>(
         signature: &CL03Signature,
         commitment_pk: &CL03CommitmentPublicKey,
@@ -546,7 +566,9 @@ impl NISPSignaturePoK {
             + &C_Cx.value().to_string()
             + &Cv.to_string()
             + &Cw.to_string()
-            + &C_Ce.value().to_string();
+            + &C_Ce.value().to_string()
+            // and so are the keys and bases it is made for
+            + &Self::statement(commitment_pk, signer_pk, a_bases, n_attr);
         let hash = <CS::HashAlg as Digest>::digest(str);
         let challenge = Integer::from_digits(hash.as_slice(), Order::MsfBe);
 
@@ -736,7 +758,8 @@ impl NISPSignaturePoK {
             + &self.Cx.to_string()
             + &self.Cv.to_string()
             + &self.Cw.to_string()
-            + &self.Ce.to_string();
+            + &self.Ce.to_string()
+            + &Self::statement(commitment_pk, signer_pk, a_bases, n_signed_messages);
         let hash = <CS::HashAlg as Digest>::digest(str);
         let challenge = Integer::from_digits(hash.as_slice(), Order::MsfBe);
 
